@@ -24,7 +24,7 @@ from vlib.conf import run_conf
 
 PROP = "C29"
 META = {
-    "ready": False,
+    "ready": True,
     "level": "model_checking",
     "technique": "TLA+ model of the alignment functions: TLAPS proof of the property for all naturals per alignment + TLC enumeration of cases, replayed into the real Alignment functions in-process (verif_api)",
     "level_text": "Align.tla transcribes Alignment::new/align_up/align_down/align_modulo; TLAPS proves for each of the 17 alignments and ALL natural v, r that the transcription yields the least multiple >= v, the greatest multiple <= v and the least value >= align_up(v) congruent to r (102 theorems); TLC checks the same statements, the least/greatest wording of the text and Valid on enumerated cases and exports every case with the model's result; every exported case is replayed into the real functions (equality), and 64-bit boundary and seeded random inputs are checked against the proved characterisation.",
